@@ -445,8 +445,20 @@ func ruleWhatIfOnDuplicate(c *Ctx) {
 			if ix, ok := unparen(e).(*ast.IndexExpr); ok {
 				e = ix.X
 			}
-			id, ok := unparen(e).(*ast.Ident)
-			return ok && dups[p.ObjOf(id)]
+			if id, ok := unparen(e).(*ast.Ident); ok {
+				return dups[p.ObjOf(id)]
+			}
+			// a lookup helper that is handed the duplicate and returns one of its entries
+			if call, ok := unparen(e).(*ast.CallExpr); ok {
+				if callee := p.Callee(call); callee != nil && p.FuncOf[callee] != nil {
+					for k, arg := range call.Args {
+						if id, isID := unparen(arg).(*ast.Ident); isID && dups[p.ObjOf(id)] && p.returnsEntryOfParam(p.FuncOf[callee], k) {
+							return true
+						}
+					}
+				}
+			}
+			return false
 		}
 		for _, call := range p.callsInShallow(fn, methods...) {
 			n++
@@ -534,4 +546,76 @@ func ruleConfiguredFilterNotEmpty(c *Ctx) {
 		c.Check("C17.g", "configured list clears the empty flag: "+src, is, cleared, "the branch for %s does not clear filter.empty on all its paths: a configured list of which no entry passes the name check yields an empty filter and the rule admits users its filter does not name", src)
 	}
 	c.Floor("C17.g", "list/expression branches in newFilter", n, 4)
+}
+
+// returnsEntryOfParam: the first result of every return of fn is nil or a variable that is only ever assigned an
+// element of the map passed as parameter k.
+func (p *Prog) returnsEntryOfParam(fn *Func, k int) bool {
+	po := paramObj(p, fn, k)
+	if po == nil || fn.Decl.Body == nil {
+		return false
+	}
+	entryVars := map[interface{}]bool{}
+	bad := false
+	ast.Inspect(fn.Decl.Body, func(n ast.Node) bool {
+		as, ok := n.(*ast.AssignStmt)
+		if !ok || len(as.Rhs) != 1 {
+			return true
+		}
+		ix, isIx := unparen(as.Rhs[0]).(*ast.IndexExpr)
+		if !isIx {
+			return true
+		}
+		if id, isID := unparen(ix.X).(*ast.Ident); isID && p.ObjOf(id) == po {
+			if l, isL := as.Lhs[0].(*ast.Ident); isL {
+				entryVars[p.ObjOf(l)] = true
+			}
+		}
+		return true
+	})
+	// such a variable must not be assigned anything else
+	ast.Inspect(fn.Decl.Body, func(n ast.Node) bool {
+		as, ok := n.(*ast.AssignStmt)
+		if !ok {
+			return true
+		}
+		for i, l := range as.Lhs {
+			id, isID := l.(*ast.Ident)
+			if !isID || !entryVars[p.ObjOf(id)] || i > 0 {
+				continue
+			}
+			ix, isIx := unparen(as.Rhs[0]).(*ast.IndexExpr)
+			if !isIx {
+				bad = true
+				continue
+			}
+			if xid, isX := unparen(ix.X).(*ast.Ident); !isX || p.ObjOf(xid) != po {
+				bad = true
+			}
+		}
+		return true
+	})
+	nret := 0
+	ast.Inspect(fn.Decl.Body, func(n ast.Node) bool {
+		rs, ok := n.(*ast.ReturnStmt)
+		if !ok || len(rs.Results) == 0 {
+			return true
+		}
+		nret++
+		r := unparen(rs.Results[0])
+		if p.isNilExpr(r) {
+			return true
+		}
+		if id, isID := r.(*ast.Ident); isID && entryVars[p.ObjOf(id)] {
+			return true
+		}
+		if ix, isIx := r.(*ast.IndexExpr); isIx {
+			if xid, isX := unparen(ix.X).(*ast.Ident); isX && p.ObjOf(xid) == po {
+				return true
+			}
+		}
+		bad = true
+		return true
+	})
+	return nret > 0 && !bad
 }
